@@ -148,3 +148,22 @@ Theorem C08_pipeline_completed_run_filtered : forall c f n budget s,
   /\ Compose.PL.s_err s = Compose.PL.eEOF /\ Compose.PL.err_value s = 0%Z.
 Proof. exact completed_run_delivers_elements. Qed.
 Print Assumptions C08_pipeline_completed_run_filtered.
+
+(* 6a. (wave 5) the same for EVERY configuration record pc of the pipeline model whose input is the
+       instantiated file (any worker count, budget, header present or not, header error, either reader
+       loop condition for the prefix statement; repair-flag hypotheses as in the C02 theorems used). *)
+Theorem C08_pipeline_delivers_filtered_prefix_any_cfg : forall c f pc s,
+  valid_file f = true -> Compose.PL.c_inp pc = inst c f -> Compose.PL.wf_cfg pc = true ->
+  Compose.PL.c_recheck pc = true -> Compose.PL.c_nextctx pc = true -> Compose.PB.reach pc s ->
+  exists t, map (lab c f) (Compose.PL.delivered s) ++ t = filter (keeps c) (elements_file f).
+Proof. exact delivered_prefix_any_cfg. Qed.
+Print Assumptions C08_pipeline_delivers_filtered_prefix_any_cfg.
+
+Theorem C08_pipeline_completed_run_filtered_any_cfg : forall c f pc s,
+  valid_file f = true -> Compose.PL.c_inp pc = inst c f -> Compose.PL.wf_cfg pc = true ->
+  Compose.PL.current pc = true -> Compose.PL.c_hdr_err pc = 0%Z -> Compose.PB.reach pc s ->
+  Compose.PL.closed s = false -> Compose.PL.pcancelled s = false -> Compose.PL.s_err s <> 0%Z ->
+  map (lab c f) (Compose.PL.delivered s) = filter (keeps c) (elements_file f)
+  /\ Compose.PL.s_err s = Compose.PL.eEOF /\ Compose.PL.err_value s = 0%Z.
+Proof. exact completed_run_any_cfg. Qed.
+Print Assumptions C08_pipeline_completed_run_filtered_any_cfg.
